@@ -68,11 +68,52 @@ class SpecGen(aasgen.Gen):
                     rd(days=sign * 1, seconds=sign * 59, microseconds=sign * 999999)]
         return out
 
+    # time zones met by every calendar edge below: none, Z, a half-hour zone, both ends of the xs range, one minute west
+    CAL_TZ_MIN = [None, 0, 330, -660, 840, -840, -1]
+
+    @classmethod
+    def calendar_values(cls):
+        """the eight date/time types of DataTypeDefXsd at the edges of their value spaces, EVERY edge combined with EVERY
+        time zone of CAL_TZ_MIN (the random pools draw day <= 28 and the edge days only without a zone): first and last
+        day of every month length (--02-29, --04-30, --12-31, ---31), leap days of years divisible by 4 / 100 / 400,
+        the first and the last representable year, midnight and the last microsecond of a day.
+        Returns [(type, value)], a fixed list (no random choice)"""
+        import datetime
+        from basyx.aas.model import datatypes as dt
+        tzs = [None if m is None else datetime.timezone(datetime.timedelta(minutes=m)) for m in cls.CAL_TZ_MIN]
+        out = []
+        for tz in tzs:
+            for mo, d in ((1, 1), (1, 31), (2, 28), (2, 29), (3, 31), (4, 30), (6, 30), (9, 30), (11, 30), (12, 31)):
+                out.append((dt.GMonthDay, dt.GMonthDay(mo, d, tz)))
+            for d in (1, 28, 29, 30, 31):
+                out.append((dt.GDay, dt.GDay(d, tz)))
+            for mo in (1, 2, 12):
+                out.append((dt.GMonth, dt.GMonth(mo, tz)))
+            for y in (1, 4, 1900, 1970, 2000, 9999):
+                out.append((dt.GYear, dt.GYear(y, tz)))
+            for y, mo in ((1, 1), (1900, 2), (2000, 2), (2024, 2), (9999, 12)):
+                out.append((dt.GYearMonth, dt.GYearMonth(y, mo, tz)))
+            for y, mo, d in ((1, 1, 1), (4, 2, 29), (1900, 2, 28), (1970, 1, 1), (2000, 2, 29), (2024, 2, 29), (2023, 2, 28),
+                             (9999, 12, 31)):
+                out.append((dt.Date, dt.Date(y, mo, d, tz)))
+            for args in ((1, 1, 1, 0, 0, 0, 0), (4, 2, 29, 12, 0, 0, 1), (1969, 12, 31, 23, 59, 59, 999999),
+                         (2000, 2, 29, 23, 59, 59, 999999), (2024, 2, 29, 0, 0, 0, 0), (9999, 12, 31, 23, 59, 59, 999999)):
+                out.append((datetime.datetime, datetime.datetime(*args, tzinfo=tz)))
+            for args in ((0, 0, 0, 0), (23, 59, 59, 999999), (12, 0, 0, 500000)):
+                out.append((datetime.time, datetime.time(*args, tzinfo=tz)))
+        return out
+
     def xsd_value(self, t):
         import decimal
         from dateutil.relativedelta import relativedelta
         if t is relativedelta and self.rng.random() < 0.7:
             return self.rng.choice(self.durations())
+        if self.rng.random() < 0.25:
+            # a calendar edge with a time zone (whole stores: the value then also occurs as Range min / max, Qualifier and
+            # Extension value, not only in the Properties of the typed-value matrix)
+            pool = [v for ty, v in self.calendar_values() if ty is t]
+            if pool and "tz" not in self.avoid and "sub_ms" not in self.avoid:
+                return self.rng.choice(pool)
         if t is decimal.Decimal:
             # integral values with trailing zeros, values below 1e-6, exponents, more than 28 digits: the spellings on
             # which str(Decimal) / normalize() switch to scientific notation (no xs:decimal literal)
@@ -580,6 +621,7 @@ LITERAL_STYLES = {  # styles that change the spelling but not the value, per can
     "UnsignedByte": ["plus", "zeros"], "NonPositiveInteger": ["zeros"], "NegativeInteger": ["zeros"],
     "boolean": ["num"], "float": ["exp", "plus"], "Float": ["exp", "plus"], "decimal": ["plus", "zeros"],
     "duration": ["coarse", "zeros"], "dateTime": ["tzplus", "tzminus", "frac0"], "date": ["tzplus"], "time": ["tzplus"], "HexBinary": ["lower"],
+    "gYearMonth": ["tzplus"], "gYear": ["tzplus"], "gMonthDay": ["tzplus"], "gMonth": ["tzplus"], "gDay": ["tzplus"],
 }
 
 
